@@ -23,7 +23,20 @@
  * produced and not the result of a compaction that happened to finish first.
  *
  * usage: repairmon --seed S --first I --count N --dir D [--steps-max K]
- *                  [--template auto|none|f4|tomb|snap] [--variant 0..6] [--extra 0..3]
+ *                  [--template auto|none|f4|tomb|snap|all] [--variant 0..6] [--extra 0..3] [--end wal|flushed]
+ *   --steps-max K   history length is uniform in [100, K] (default 800); K < 100 = exactly K random steps
+ *                   (K = 0 with --template f4 is the minimal scripted recipe on an empty database)
+ *   --variant       0 del-current 1 del-manifest 2 del-both 3 trunc-manifest 4 flip-manifest
+ *                   5 current-missing-target 6 current-garbage          (default: random per case)
+ *   --extra         0 none 1 delete one table 2 delete the WAL 3 destroy one table (default: 80/8/6/6 %)
+ *   RM_DEBUG=1      timing of the parts of a case on stderr
+ *
+ * Violation keys (property C19): get-stale-level0-file-number-order (the diagnosed shape of DESIGN
+ * section 4, F4), get-stale, get-missing, get-phantom, get-value-never-written, get-status,
+ * iter-mismatch, repair-failed, open-after-repair-failed, reopen-after-followup-failed,
+ * new-write-shadowed, followup-lost-after-reopen, file-number-not-above-existing,
+ * sequence-not-above-existing, intact-table-moved-to-lost, table-dropped-not-archived,
+ * repaired-files-differ.
  */
 #include <errno.h>
 #include <fcntl.h>
